@@ -601,9 +601,9 @@ func (w *tWriter) finish() (f *tFile, err error) {
 
 // Drops the table.
 func (w *tWriter) drop() error {
-	if err := w.close(); err != nil {
-		return err
-	}
+	// The handle is spent whatever close returns; the partial table goes
+	// away regardless.
+	cerr := w.close()
 	w.tw = nil
 	w.first = nil
 	w.last = nil
@@ -611,5 +611,5 @@ func (w *tWriter) drop() error {
 		return err
 	}
 	w.t.s.reuseFileNum(w.fd.Num)
-	return nil
+	return cerr
 }
